@@ -359,7 +359,16 @@ func (h *hist) oracleC04(s *sess, rc *rec, drr *appencryption.DataRowRecord, t t
 	if t.After(skExp) {
 		h.r.Count("c04_records_under_expired_sk_within_bound", 1)
 	}
-	if t.After(skExp.Add(bound)) {
+	// a replacement IK needs a later creation stamp: until the precision window of the current IK has passed the
+	// insert of a new IK collides with it, so the interval runs from whichever comes later
+	from := skExp
+	if cf := time.Unix(ikc, 0).Add(s.fa.cfg.Precision); cf.After(from) {
+		if t.After(skExp.Add(bound)) && !t.After(cf.Add(bound)) {
+			h.r.Count("c04_excused_same_precision_window", 1)
+		}
+		from = cf
+	}
+	if t.After(from.Add(bound)) {
 		sig := "c04-ik-under-expired-sk-still-used"
 		if h.seededByLoad(scopeOf(s), ikid, ikc, skExp) {
 			sig += ":latest-alias-seeded-by-decrypt-load"
@@ -395,6 +404,13 @@ func (h *hist) oracleC05(s *sess, rc *rec, drr *appencryption.DataRowRecord, t t
 	ikBound := cfg.Revoke // the property's bounds: one interval for the IK itself, two for its parent SK
 	if tr, ok := h.flipTime(ikid, ikc); ok {
 		creatable := stamp > ikc
+		// the interval runs from the moment a replacement became creatable (next precision window), if later
+		if cf := time.Unix(ikc, 0).Add(cfg.Precision); cf.After(tr) {
+			if creatable && t.After(tr.Add(ikBound)) && !t.After(cf.Add(ikBound)) {
+				h.r.Count("c05_excused_same_precision_window", 1)
+			}
+			tr = cf
+		}
 		switch {
 		case !creatable:
 			h.r.Count("c05_excused_same_precision_window", 1)
@@ -410,6 +426,16 @@ func (h *hist) oracleC05(s *sess, rc *rec, drr *appencryption.DataRowRecord, t t
 		if tr, ok := h.flipTime(skid, skc); ok {
 			bound := 2 * cfg.Revoke
 			creatable := stamp > skc && stamp > ikc
+			newest := skc
+			if ikc > newest {
+				newest = ikc
+			}
+			if cf := time.Unix(newest, 0).Add(cfg.Precision); cf.After(tr) {
+				if creatable && t.After(tr.Add(bound)) && !t.After(cf.Add(bound)) {
+					h.r.Count("c05_excused_same_precision_window", 1)
+				}
+				tr = cf
+			}
 			switch {
 			case !creatable:
 				h.r.Count("c05_excused_same_precision_window", 1)
